@@ -12,7 +12,7 @@ real store (count, digest, changed records), under real double SHA-256.
   gcq <G>                  -> ok
   sync                     -> n=.. dg=.. ch=..
   reset                    -> ok
-  restore <k>=<v>,...      -> r=<root> n=.. dg=.. ch=..   (Billet restore of the trie with these contents into an empty store)
+  restore <idx> <k>=<v>,.. -> r=<root> n=.. dg=.. ch=..   (Billet restore of the trie with these contents, the state of height idx, into an empty store)
   get <h> <key>            -> <value> | none
   wild                     -> ok
   sub: p:<key>:<val>  d:<key>  b:<key>=<val|del>,...
@@ -131,14 +131,15 @@ def step (d : DSt) (ws : List String) : DSt × String :=
     | none => (d, "bad-op")
   | ["sync"] => ({ d with printed := d.s.store }, storeObs d.printed d.s.store)
   | ["reset"] => ({ d with s := reset d.s }, "ok")
-  | ["restore", es] =>
-    match (if es == "-" then some [] else (splitOn es ',').mapM parseKV) with
-    | some m =>
+  | ["restore", idx, es] =>
+    match idx.toNat?, (if es == "-" then some [] else (splitOn es ',').mapM parseKV) with
+    | some i, some m =>
       let t := putBatch .empty (mapToBatch m)
       let st := restoreAll H d.s.mode [] t
-      ({ s := { d.s with root := t, store := st }, printed := st },
+      ({ s := { d.s with root := t, rc := [], store := st, roots := [(i, rootHash H t)], hist := [(i, t)] },
+         printed := st },
         s!"r={Hex.encode (rootHash H t)} {storeObs [] st}")
-    | none => (d, "bad-op")
+    | _, _ => (d, "bad-op")
   | ["wild"] => (d, "ok")
   | ["get", h, k] =>
     match h.toNat?, Hex.decode k with
